@@ -15,7 +15,7 @@ CLAIMED = {
          "(sympy), non-negativity / [0,1] / J*n<=1/4 are positivity certificates over a gap re-parametrisation, sort_omegas is a sorted permutation with the "
          "central-vertex index (32 paths), thm_get_integration_weight is proved in [0,1] (J) / >=0 (I) and exact above/below the spectrum by a loop invariant "
          "over the 24 tetrahedra with callees by contract; the Python TetrahedronMethod region methods and its if/elif ladder are proved equal to the C ones. "
-         "All for every real omega and vertex frequencies, no bound.",
+         "All for every real omega and vertex frequencies, no bound. Smearing DOS (Python): TotalDos._get_density_of_states_at_freq == weighted mesh sum of the kernel / sum of weights and TotalDos.run evaluates it at every frequency point (generic 2x2 instance of the vectorised code, uninterpreted kernel); Normal and Cauchy kernels extracted from the source are >= 0 and integrate to 1 (sympy); ProjectedDos._run_smearing_method == the |e|^2-weighted sum and the projections add up to the total when the |e|^2 sum to one.",
     note=TRUST + "Monotonicity uses the cited mean-value argument (derivative sign + continuity are the decided parts). Known finding E4 (ladder drops a "
          "tetrahedron at omega == vertex value) is reported as KNOWN-FINDING. Not decided here: smearing DOS quadrature accuracy, projected-DOS eigenvector normalisation.",
     technique="deductive verification: symbolic-execution VC generation over clang/ast + z3/cvc5/sympy",
@@ -40,13 +40,13 @@ CLAIMED = {
          "invariant over recursive-sum spec functions), get_dynmat_ij (partial Fourier sum over the supercell atoms that map to the primitive atom), make_Hermitian "
          "(two nested loops, quantified invariant; result (M+M^H)/2 and Hermitian), dym_get_dynamical_matrix_at_q (both the ij-parallel and the nested branch): the "
          "output equals herm(Dspec) with Dspec the multiplicity-averaged lattice Fourier sum of the property statement; Wang NAC: dym_get_charge_sum, get_q_cart, "
-         "get_dielectric_part, get_dynmat_want (three branches). All array sizes, contents and index tables symbolic; bounds of every subscript included.",
+         "get_dielectric_part, get_dynmat_want (three branches). All array sizes, contents and index tables symbolic; bounds of every subscript included. run_dynamical_matrix_solver_c (Python): for a q-point argument with symbolic dtype and alignment/ownership/contiguity flags the array reaching the extension call is double and C-contiguous on every path (numpy conversion contracts stated at the hooks).",
     note=TRUST + "Index tables (multi, s2p, p2s) are assumed well formed (precondition established by C04/C05). cos/sin are uninterpreted. Not yet under contract in "
          "this check: the Python fallback _run_py_dynamical_matrix, the commensurate-q lemma, LAPACK eigh, the unit factor.",
     technique="deductive verification: modular contracts + loop invariants over recursive-sum spec functions, z3",
     design="DESIGN.md section 5 C02"),
  "C13": dict(
-    text="Memory safety and schedule independence: safety contracts with every callee inlined for dym_get_dynamical_matrix_at_q, dym_transform_dynmat_to_fc, phpy_tetrahedron_method_dos (fixed-point count lemma), phpy_get_tetrahedra_frequenies, ddm_get_derivative_dynmat_at_q (without NAC), multiply_borns, phpy_set_smallest_vectors_sparse (no bound on ties), and inside the functional contracts of phpy_get_thermal_properties, phpy_set_smallest_vectors_dense and the others: every array subscript is de-flattened against the logical shape the Python call site passes and proved in range, divisions are proved non-zero, and for each omp parallel for the scalars assigned in the body are proved private/local and every write disjoint from every access of another iteration (hence the result does not depend on the schedule or the number of threads). Same-result-as-reference: the functional contracts of the kernels of C01, C02, C05, C06, C07, C08, C10, C11 (C == Python proved there), C12 are re-proved in this check.",
+    text="Memory safety and schedule independence: safety contracts with every callee inlined for dym_get_dynamical_matrix_at_q, dym_transform_dynmat_to_fc, phpy_tetrahedron_method_dos (fixed-point count lemma), phpy_get_tetrahedra_frequenies, ddm_get_derivative_dynmat_at_q (without NAC), multiply_borns, phpy_set_smallest_vectors_sparse (no bound on ties), and inside the functional contracts of phpy_get_thermal_properties, phpy_set_smallest_vectors_dense and the others: every array subscript is de-flattened against the logical shape the Python call site passes and proved in range, divisions are proved non-zero, and for each omp parallel for the scalars assigned in the body are proved private/local and every write disjoint from every access of another iteration (hence the result does not depend on the schedule or the number of threads). Same-result-as-reference: the functional contracts of the kernels of C01, C02, C05, C06, C07, C08, C10, C11 (C == Python proved there), C12 are re-proved in this check. The layout precondition of the nanobind glue for the q-point array (double, C-contiguous) is a call-site obligation on run_dynamical_matrix_solver_c.",
     note=TRUST + "Kernels not yet under a contract: phpy_compute_permutation, get_dd / dym_get_recip_dipole_dipole (Gonze-Lee reciprocal sum), phpy_perm_trans_symmetrize_compact_fc driver, the NAC branch of the derivative kernel, the Wang loop over q-points of dym_dynamical_matrices_with_dd_openmp_over_qpoints (the no-NAC loop is covered: callee accesses are confined to its view dynamical_matrices[i] / qpoints[i]) and its Gonze-Lee configuration, rgd_* beyond the index arithmetic of C11. 9 of the 10 omp pragmas in c/*.c carry race obligations. Int overflow is outside the model (A-INT). The nanobind glue c/_phonopy.cpp is read, not verified. Finding E15 (sparse shortest-vector kernel wrote past its 27 slots) repaired by a fix: commit.",
     technique="deductive verification: bounds/race VCs from symbolic execution of the inlined kernels, z3",
     design="DESIGN.md section 5 C13"),
@@ -73,18 +73,18 @@ CLAIMED = {
     text="c/phonopy.c symmetrisers under contract: set_index_permutation_symmetry_fc (result (f+f^T)/2, index symmetric), set_translational_symmetry_fc and its compact "
          "variant (diagonal block = -(S+S^T)/2 of the off-diagonal row sums, pointer stepping handled by an index-defining invariant), the column/row drift sweeps of "
          "phpy_perm_trans_symmetrize_fc, and one (j,i_p) step of the compact index-permutation/transpose routine (blocks exchanged and transposed resp. averaged, "
-         "including blocks paired with themselves); get_nsym_list_and_s2pp (Python, symbolic-length arrays) establishes the translation tables the C code takes as given.",
+         "including blocks paired with themselves); get_nsym_list_and_s2pp (Python, symbolic-length arrays) establishes the translation tables the C code takes as given. Python glue: compact_fc_to_full_fc hands the (proved, accumulating) distribution kernel a numpy.zeros buffer whose only earlier write is the representative rows and returns it; full_fc_to_compact_fc returns full_fc[p2s_map]; distribute_force_constants_by_translations forwards p2s_map / pure-translation permutations; Phonopy.symmetrize_force_constants_by_space_group passes the transposed (column-vector) cell, and set_tensor_symmetry_PJ conjugates with R^T where R L == L r exactly, paired with its inverse.",
     note=TRUST + "Not yet decided: idempotence of the iterated level loop beyond the per-sweep contracts, the compact perm+trans driver, set_tensor_symmetry_PJ, "
-         "compact<->full conversion. numpy np.where contract assumed. Finding E2 (self-paired blocks not transposed) repaired by a fix: commit.",
+         "the averaging and atom mapping of set_tensor_symmetry_PJ. numpy np.where / zeros / empty contracts assumed. Finding E2 (self-paired blocks not transposed) repaired by a fix: commit.",
     technique="deductive verification: loop invariants with quantified array facts and recursive-sum spec functions, z3; replay on the compiled code",
     design="DESIGN.md section 5 C07"),
  "C12": dict(
-    text="c/derivative_dynmat.c: get_derivative_dynmat_at_q under a functional contract: every 3x3 block of the three Cartesian derivative matrices equals the q-derivative of the C02 Fourier-sum spec (mechanical differentiation of the summand, loop invariants over atoms and images), and the Hermitian post-processing of ddm_get_derivative_dynmat_at_q makes every direction Hermitian (all rows, loop invariants over the pair loops); Wang-NAC derivative helpers: get_dA == d/dq get_A and get_dC == d/dq get_C (exact identities). Python: GruneisenBase._set_gruneisen re-orders eigenvalues, eigenvector columns and <e|dD|e> by the same band order.",
+    text="c/derivative_dynmat.c: get_derivative_dynmat_at_q under a functional contract: every 3x3 block of the three Cartesian derivative matrices equals the q-derivative of the C02 Fourier-sum spec (mechanical differentiation of the summand, loop invariants over atoms and images), and the Hermitian post-processing of ddm_get_derivative_dynmat_at_q makes every direction Hermitian (all rows, loop invariants over the pair loops); Wang-NAC derivative helpers: get_dA == d/dq get_A and get_dC == d/dq get_C (exact identities). Python: GruneisenBase._set_gruneisen re-orders eigenvalues, eigenvector columns and <e|dD|e> by the same band order. GruneisenBase: default strain == (V+ - V-)/V0 with V0 the central volume, _get_dD == D_b - D_a at the given q, requested as (minus, plus).",
     note=TRUST + "NOT decided: first-order perturbation theory (Hellmann-Feynman) linking dD/dq to group velocities (cited), degeneracy handling, the finite-difference group-velocity path, Grueneisen prefactors. Finding E9 (directions 1,2 not Hermitian) repaired by a fix: commit.",
     technique="deductive verification: loop invariants, z3; replay on the compiled code",
     design="DESIGN.md section 5 C12"),
  "C14": dict(
-    text="Python access paths by symbolic execution: IterMesh.__next__ definite assignment on every path and the frequency expression sqrt|e| sign(e) factor; Phonopy.init_mesh constructs Mesh and IterMesh from equal values of every common parameter (mesh as numbers and as length) and hands both the primitive cell's point-group operations; QpointsPhonon._run buffer ownership (arrays collected for output are not overwritten in place, for both values of use_openmp and all option combinations); BandStructure._solve_dm_on_path with band connection re-orders eigenvalues, eigenvector columns and group velocities by the same band order.",
+    text="Python access paths by symbolic execution: IterMesh.__next__ definite assignment on every path and the frequency expression sqrt|e| sign(e) factor; Phonopy.init_mesh constructs Mesh and IterMesh from equal values of every common parameter (mesh as numbers and as length) and hands both the primitive cell's point-group operations; QpointsPhonon._run buffer ownership (arrays collected for output are not overwritten in place, for both values of use_openmp and all option combinations); BandStructure._solve_dm_on_path with band connection re-orders eigenvalues, eigenvector columns and group velocities by the same band order. GroupVelocity.run history independence: from an entry state with arbitrary _directions[0] / _perturbation, the state seen by _calculate_group_velocity_at_q is a function of this call's arguments only (syntactic independence + default direction (1,2,3)/sqrt(14)); q-point layout obligation of run_dynamical_matrix_solver_c.",
     note=TRUST + "numpy arrays are abstracted with a buffer-ownership model (views share buffers; conservative). Loops over abstracted sequences are executed as one generic iteration. NOT decided: numerical equality of the spectra across paths (reduces to C02), yaml/hdf5 output. Findings E1, E12, E14 repaired by fix: commits.",
     technique="deductive verification: symbolic execution of the Python source with an abstract buffer-ownership model",
     design="DESIGN.md section 5 C14"),
